@@ -56,6 +56,16 @@ add("C10", "model_checking",
     "outside the library are not covered.",
     "bounded exhaustive enumeration (spec versions x value alphabet; rules x households x dates) against an exact-arithmetic oracle", "2/C10")
 
+add("C19", "model_checking",
+    "Exhaustive wage lattice (1 EUR steps, thorough 0.25 EUR, from 0 to the highest assessment ceiling + 1000) plus every statutory boundary "
+    "(minijob limit, upper transition-zone limit, both ceilings) +-0.01, +-1 and +-1 ulp, for east/west x with/without children at every change "
+    "date >= 2015 (thorough: first and last day of every class), simulated through compute_taxes_and_transfers; on consecutive lattice points "
+    "each employee contribution must be non-negative, non-decreasing, zero up to the minijob limit, constant above its ceiling, meet the regular "
+    "contribution at the upper zone boundary within one cent, and employee + employer must equal the total inside the zone.",
+    "Monotonicity between lattice points is not proved, only checked at the stated step and at all boundaries; one employee profile (age 35, "
+    "statutory insurance, not self-employed / retired).",
+    "bounded exhaustive sweep of the wage lattice x configurations with an invariant on consecutive states", "2/C19")
+
 NOT_APPLICABLE = []
 
 
